@@ -16,7 +16,7 @@ pub fn families(prop: &str, tier: Tier) -> Vec<Cfg> {
             a.ops = vec![OpK::Pub1, OpK::Pub2, OpK::Pub0, OpK::Sub, OpK::Unsub, OpK::Poll, OpK::Disconnect, OpK::DropConn];
             a.io = IoMenu::partial();
             a.cancel = true;
-            a.max_ops = if q { 4 } else { 5 };
+            a.max_ops = if q { 5 } else { 6 };
             a.max_conns = 2;
             a.dev = if q { 2 } else { 3 };
             a.max_reqs = 3;
@@ -27,9 +27,9 @@ pub fn families(prop: &str, tier: Tier) -> Vec<Cfg> {
             b.cancel = true;
             b.broker.script = vec![inpub(1, 11), inpub(2, 12)];
             b.broker.may_lose_session = true;
-            b.max_ops = if q { 4 } else { 6 };
+            b.max_ops = if q { 5 } else { 6 };
             b.max_conns = if q { 2 } else { 3 };
-            b.dev = if q { 1 } else { 2 };
+            b.dev = if q { 2 } else { 3 };
             b.max_reqs = 3;
             vec![a, b]
         }
@@ -42,18 +42,18 @@ pub fn families(prop: &str, tier: Tier) -> Vec<Cfg> {
             a.io.write_pending = true;
             a.io.flush_pending = true;
             a.cancel = true;
-            a.max_ops = if q { 6 } else { 8 };
+            a.max_ops = if q { 7 } else { 9 };
             a.max_conns = if q { 3 } else { 4 };
-            a.max_reqs = if q { 2 } else { 3 };
+            a.max_reqs = if q { 3 } else { 4 };
             a.dev = if q { 1 } else { 2 };
             let mut b = Cfg::base("C02-partial-writes-then-death");
             b.props = vec!["C02"];
             b.ops = vec![OpK::Pub1, OpK::Poll, OpK::DropConn, OpK::Forget];
             b.io = IoMenu::full();
             b.cancel = true;
-            b.max_ops = if q { 5 } else { 7 };
+            b.max_ops = if q { 6 } else { 8 };
             b.max_conns = 3;
-            b.max_reqs = if q { 2 } else { 3 };
+            b.max_reqs = if q { 3 } else { 4 };
             b.dev = 2;
             vec![a, b]
         }
@@ -165,6 +165,33 @@ pub fn families(prop: &str, tier: Tier) -> Vec<Cfg> {
             b.max_reqs = if q { 10 } else { 12 };
             b.dev = 0;
             v.push(b);
+            v
+        }
+        "C07" => {
+            let mut v = Vec::new();
+            for (i, start) in [None, Some(65534u16), Some(65535)].into_iter().enumerate() {
+                let mut a = Cfg::base(match i {
+                    0 => "C07-counter-comes-round-to-live-id",
+                    1 => "C07-wrap-from-65534",
+                    _ => "C07-wrap-from-65535",
+                });
+                a.props = vec!["C07"];
+                a.ops = vec![OpK::Pub1, OpK::Pub2, OpK::Sub, OpK::Unsub, OpK::Poll, OpK::Age];
+                if i > 0 {
+                    a.ops.pop();
+                }
+                a.start_pid = start;
+                a.io = IoMenu::benign();
+                a.io.write_pending = true;
+                a.cancel = true;
+                a.broker.receive_max = vec![Some(2)];
+                a.max_ops = if q { 6 } else { 8 };
+                a.max_conns = 1;
+                a.max_reqs = if q { 4 } else { 5 };
+                a.dev = if q { 0 } else { 1 };
+                a.watchdog_calls = 600;
+                v.push(a);
+            }
             v
         }
         "C11" => {
@@ -308,11 +335,14 @@ pub fn inpub(qos: u8, pid: u16) -> InPub {
     }
 }
 
-/// Direct enumerations (input-space properties) live here; none yet for most properties.
-pub fn direct(_prop: &str, _tier: Tier, _caps: &crate::explore::Caps) -> Result<Vec<crate::report::FamilyReport>, String> {
-    Ok(vec![])
+/// Direct enumerations (input-space properties).
+pub fn direct(prop: &str, tier: Tier, caps: &crate::explore::Caps) -> Result<Vec<crate::report::FamilyReport>, String> {
+    Ok(match prop {
+        "C08" => crate::direct::c08(tier, caps),
+        _ => crate::direct2::direct(prop, tier, caps),
+    })
 }
 
-pub fn replay_direct(_v: &serde_json::Value) -> i32 {
-    2
+pub fn replay_direct(v: &serde_json::Value) -> i32 {
+    crate::direct::replay_case(v)
 }
